@@ -614,3 +614,152 @@ def flag_paths(cfg: CFG, start_edges: List[Tuple[Node, Node]], targets: Iterable
                 prev[k2] = k
                 dq.append(k2)
     return None
+
+
+# ---------------------------------------------------------------------------
+# feasible paths: path enumeration with correlated branch outcomes
+# ---------------------------------------------------------------------------
+_DOM = frozenset(("none", "falsy", "truthy"))
+
+
+def truth_set(test: ast.AST) -> Optional[Tuple[str, frozenset]]:
+    """(subject text, abstract values of the subject for which `test` is true) for the truth-test forms
+    X | not X | X is None | X is not None ; None for any other test."""
+    if isinstance(test, ast.UnaryOp) and isinstance(test.op, ast.Not):
+        r = truth_set(test.operand)
+        return (r[0], _DOM - r[1]) if r else None
+    if isinstance(test, ast.Compare) and len(test.ops) == 1 and isinstance(test.comparators[0], ast.Constant) \
+            and test.comparators[0].value is None and isinstance(test.ops[0], (ast.Is, ast.IsNot)):
+        if _chain(test.left) is None:
+            return None
+        on = frozenset(("none",))
+        return (short(test.left), on if isinstance(test.ops[0], ast.Is) else _DOM - on)
+    if isinstance(test, (ast.Name, ast.Attribute)) and _chain(test) is not None:
+        return (short(test), frozenset(("truthy",)))
+    return None
+
+
+def _chain(node: ast.AST):
+    out = []
+    while isinstance(node, ast.Attribute):
+        out.append(node.attr)
+        node = node.value
+    if isinstance(node, ast.Name):
+        out.append(node.id)
+        return list(reversed(out))
+    return None
+
+
+def implied(test: ast.AST, outcome: bool) -> List[Tuple[ast.AST, bool]]:
+    """Atomic (test, outcome) facts implied by `test` evaluating to `outcome`:  (A and B) true => A, B true;
+    (A or B) false => A, B false;  not A => A with the other outcome.  The test itself is always included."""
+    out = [(test, outcome)]
+    if isinstance(test, ast.BoolOp):
+        if isinstance(test.op, ast.And) == outcome:
+            for v in test.values:
+                out += implied(v, outcome)
+    elif isinstance(test, ast.UnaryOp) and isinstance(test.op, ast.Not):
+        out += implied(test.operand, not outcome)
+    return out
+
+
+_NAMES_CACHE: Dict[str, Set[str]] = {}
+
+
+def names_of_text(txt: str) -> Set[str]:
+    r = _NAMES_CACHE.get(txt)
+    if r is None:
+        try:
+            r = {x.id for x in ast.walk(ast.parse(txt, mode="eval")) if isinstance(x, ast.Name)}
+        except SyntaxError:
+            r = set()
+        _NAMES_CACHE[txt] = r
+    return r
+
+
+def _value_class(v: ast.AST) -> Optional[frozenset]:
+    """Abstract truth class of a literal right-hand side (None / falsy / truthy), None if unknown."""
+    if isinstance(v, ast.Constant):
+        if v.value is None:
+            return frozenset(("none",))
+        return frozenset(("truthy",)) if v.value else frozenset(("falsy",))
+    if isinstance(v, (ast.List, ast.Tuple, ast.Set)) and not v.elts or isinstance(v, ast.Dict) and not v.keys:
+        return frozenset(("falsy",))
+    if isinstance(v, (ast.List, ast.Tuple, ast.Set)) and v.elts and not any(isinstance(e, ast.Starred) for e in v.elts):
+        return frozenset(("truthy",))
+    return None
+
+
+def feasible_path(cfg: CFG, start: Node, targets: Iterable[Node], avoid: Optional[Callable[[Node], bool]] = None,
+                  edge_ok: Optional[Callable[[Node, Node, str], bool]] = None, budget: int = 40000,
+                  stop_at: Optional[Callable[[Node], bool]] = None) -> Optional[List[Node]]:
+    """A simple path start -> some target on which no intermediate node satisfies `avoid` and whose branch outcomes are
+    not contradictory: the same (unrebound) test is never taken both ways and the truth tests of one subject
+    (X, not X, X is None, X is not None - facts follow plain copies `y = x` and literal assignments) always leave a
+    possible value in {None, falsy, truthy}.  None when every such path is blocked or infeasible.
+    Raises AnalysisError when the path budget is exhausted (never a silent pass)."""
+    tset = {t.id for t in targets}
+    left = [budget]
+
+    def dfs(n: Node, path: List[Node], facts: Dict[str, frozenset], texts: Dict[str, bool], on_path: Set[int]):
+        left[0] -= 1
+        if left[0] < 0:
+            raise AnalysisError(f"{cfg.func.qualname}: feasible-path search budget exhausted")
+        for s, lab in n.succ:
+            if s.id in on_path:
+                continue
+            if edge_ok is not None and not edge_ok(n, s, lab):
+                continue
+            nf, nt = facts, texts
+            if n.kind == "test" and lab in ("T", "F"):
+                nt, nf = dict(texts), dict(facts)
+                ok = True
+                for atom, out in implied(n.ast, lab == "T"):
+                    txt = short(atom, 300)
+                    prev = nt.get(txt)
+                    if prev is not None and prev != out:
+                        ok = False
+                        break
+                    nt[txt] = out
+                    ts = truth_set(atom)
+                    if ts is not None:
+                        subj, on = ts
+                        cur = nf.get(subj, _DOM) & (on if out else _DOM - on)
+                        if not cur:
+                            ok = False
+                            break
+                        nf[subj] = cur
+                if not ok:
+                    continue
+            if s.id in tset:
+                return path + [s]
+            if avoid is not None and avoid(s):
+                continue
+            if stop_at is not None and stop_at(s):
+                continue
+            # effects of s on the recorded facts
+            if s.ast is not None and s.kind != "test":
+                copied: Dict[str, frozenset] = {}
+                if s.kind == "stmt" and isinstance(s.ast, ast.Assign) and len(s.ast.targets) == 1 and _chain(s.ast.targets[0]) is not None:
+                    tgt = short(s.ast.targets[0])
+                    vc = _value_class(s.ast.value)
+                    if vc is not None:
+                        copied[tgt] = vc
+                    elif _chain(s.ast.value) is not None and short(s.ast.value) in nf:
+                        copied[tgt] = nf[short(s.ast.value)]
+                stale_t = [k for k in nt if any(_defines(s, nm) is not None for nm in names_of_text(k))]
+                stale_f = [k for k in nf if any(_defines(s, nm) is not None for nm in names_of_text(k))]
+                if stale_t or stale_f or copied:
+                    nt = {k: v for k, v in nt.items() if k not in stale_t}
+                    nf = {k: v for k, v in nf.items() if k not in stale_f}
+                    nf.update(copied)
+            on_path.add(s.id)
+            r = dfs(s, path + [s], nf, nt, on_path)
+            on_path.discard(s.id)
+            if r is not None:
+                return r
+        return None
+    import sys
+    if sys.getrecursionlimit() < 5000:
+        sys.setrecursionlimit(5000)
+    return dfs(start, [start], {}, {}, {start.id})
